@@ -1,5 +1,6 @@
 import PyomaVerif.Codec
 import PyomaVerif.Model.Prep
+import PyomaVerif.Model.PrepAlgs
 /-! Driver operations for C14: replay an operation list on the model of `SingleSetup` /
 `MultiSetup_PreGER` and report the observed fields and the symbolic terms after every call. -/
 open Lean PV PV.Codec PV.Prep
@@ -105,7 +106,9 @@ def termToJson : Prep.Term → Json
       ("Wn", match wn with | .one w => Json.arr #[ratToJson w] | .two a b => Json.arr #[ratToJson a, ratToJson b]),
       ("order", Json.num (o : Int)), ("btype", btypeStr bt), ("t", termToJson t)]
 
-def errStr : Err → String | .typeError => "TypeError" | .valueError => "ValueError"
+def errStr : Err → String
+  | .typeError => "TypeError" | .valueError => "ValueError" | .zeroDivisionError => "ZeroDivisionError"
+  | .indexError => "IndexError"
 
 def sBoundToJson (b : SBound) : Json :=
   Json.mkObj [("data", termToJson b.data), ("fs", ratToJson b.fs), ("dt", ratToJson b.dt)]
@@ -174,7 +177,7 @@ def specToJson (σ : Spec) : Json :=
   Json.mkObj [("terms", listToJson termToJson σ.terms), ("fs", ratToJson σ.fs)]
 
 /-- `{"op":"prep_spec","n0":[…],"fs0":"r","ops":[…]}` → the specification fold after every prefix
-    (with the active decimation factors). -/
+    (with the active decimation factors, and whether `Op.accepted` held for the last call). -/
 def prepSpec (j : Json) : Except String Json := do
   let n0 ← listOf natOfJson (← field j "n0")
   let fs0 ← ratOfJson (← field j "fs0")
@@ -185,12 +188,76 @@ def prepSpec (j : Json) : Except String Json := do
   let mut qs : List Nat := []
   let mut out : Array Json := #[specToJson σ]
   for op in ops do
+    let acc := op.accepted (σ.terms.map (Prep.Term.len n0f)) σ.fs
     σ := specStep n0f init σ op
     qs := qsStep qs op
-    out := out.push ((specToJson σ).setObjVal! "qs" (natsToJson qs))
+    out := out.push (((specToJson σ).setObjVal! "qs" (natsToJson qs)).setObjVal! "accepted" (Json.bool acc))
   pure (Json.arr out)
 
+/-! ### `add_algorithms` by name (Model/PrepAlgs.lean) -/
+
+def nopOf (j : Json) : Except String NOp := do
+  if has j "algs" then
+    let l ← listOf (listOf natOfJson) (← field j "algs")
+    let algs ← l.mapM (fun p => match p with
+      | [o, n] => pure ({ oid := o, name := n } : Alg)
+      | _ => throw "alg = [oid, name]")
+    pure (.addN algs)
+  else do pure (.prep (← opOf j))
+
+def pairsToJson (d : List (Nat × Nat)) : Json :=
+  listToJson (fun (p : Nat × Nat) => Json.arr #[Json.num (p.1 : Int), Json.num (p.2 : Int)]) d
+
+def nStateToJson {S B : Type} (baseJ : S → Json) (boundJ : B → Json) (s : NState S B) : Json :=
+  Json.mkObj [("base", baseJ s.base), ("algorithms", pairsToJson s.algorithms),
+    ("held", listToJson (fun (p : Nat × B) => Json.arr #[Json.num (p.1 : Int), boundJ p.2]) s.held)]
+
+/-- `{"op":"prep_single_named", …as prep_single…, "ops":[… {"k":"add","algs":[[oid,name],…]} …]}` → after
+    `__init__` and after every call: the setup (`base`), `self.algorithms` as `[[name, oid], …]` in dict order,
+    and what every algorithm object holds (`[[oid, {data, fs, dt}], …]`). -/
+def prepSingleNamed (j : Json) : Except String Json := do
+  let v ← variantOf (fieldD j "variant" Json.null)
+  let c : SCfg := { n0 := ← natOfJson (← field j "n0"), nch := ← natOfJson (← field j "nch"),
+                    fs0 := ← ratOfJson (← field j "fs0") }
+  let ops ← listOf nopOf (← field j "ops")
+  let mut s : NState SState SBound := { base := sInit c, algorithms := [], held := [] }
+  let mut out : Array Json := #[nStateToJson (sStateToJson "ok" Json.null) sBoundToJson s]
+  for op in ops do
+    match sStepN v c s op with
+    | .ok s' =>
+        s := s'
+        out := out.push (nStateToJson (sStateToJson "ok" Json.null) sBoundToJson s)
+    | .error e => out := out.push (nStateToJson (sStateToJson (errStr e) Json.null) sBoundToJson s)
+  pure (Json.arr out)
+
+def prepMultiNamed (j : Json) : Except String Json := do
+  let v ← variantOf (fieldD j "variant" Json.null)
+  let c : MCfg := { n0 := ← listOf natOfJson (← field j "n0"), nch := ← listOf natOfJson (← field j "nch"),
+                    fs0 := ← ratOfJson (← field j "fs0"),
+                    refInd := ← listOf (listOf natOfJson) (← field j "ref_ind") }
+  let ops ← listOf nopOf (← field j "ops")
+  let mut s : NState MState MBound := { base := mInit c, algorithms := [], held := [] }
+  let mut out : Array Json := #[nStateToJson (mStateToJson "ok" Json.null) mBoundToJson s]
+  for op in ops do
+    match mStepN v c s op with
+    | .ok s' =>
+        s := s'
+        out := out.push (nStateToJson (mStateToJson "ok" Json.null) mBoundToJson s)
+    | .error e => out := out.push (nStateToJson (mStateToJson (errStr e) Json.null) mBoundToJson s)
+  pure (Json.arr out)
+
+/-- `{"op":"pre_multisetup_checked","nch":[…],"ref_ind":[[…],…]}` → `{"outcome": "ok" | exception class,
+    "splits": [...]}` for datasets `init 0 … init (len nch − 1)`. -/
+def preMultisetupCheckedOp (j : Json) : Except String Json := do
+  let nch ← listOf natOfJson (← field j "nch")
+  let refInd ← listOf (listOf natOfJson) (← field j "ref_ind")
+  let terms := (List.range nch.length).map Prep.Term.init
+  match preMultisetupChecked (fun i => nch.getD i 0) terms refInd with
+  | .ok Y => pure (Json.mkObj [("outcome", "ok"), ("splits", listToJson splitToJson Y)])
+  | .error e => pure (Json.mkObj [("outcome", errStr e), ("splits", Json.null)])
+
 def ops : List (String × (Json → Except String Json)) :=
-  [("prep_single", prepSingle), ("prep_multi", prepMulti), ("prep_spec", prepSpec)]
+  [("pre_multisetup_checked", preMultisetupCheckedOp), ("prep_single", prepSingle), ("prep_multi", prepMulti), ("prep_spec", prepSpec),
+   ("prep_single_named", prepSingleNamed), ("prep_multi_named", prepMultiNamed)]
 
 end PV.Ops.C14
